@@ -521,7 +521,7 @@ def run(ck):
   # (e) library components
   for k in range(len(STDLIB)): todo.append(gen_stdlib(k) + ('stdlib',))
   # (a) rtlgen
-  for _ in range(150 if quick else 800):
+  for _ in range(100 if quick else 800):
     r = rng.random()
     d = rtlgen.generate_slices(rng) if r < 0.25 else rtlgen.generate(rng, max_blocks=8, structs=(rng.random() < 0.7))
     fam = 'rtlgen'
@@ -534,22 +534,27 @@ def run(ck):
       if n: fam = 'rtlgen+RDWR'
     todo.append((src, d.cls_name(''), fam))
   # (b) c08_gen legal designs
-  for _ in range(80 if quick else 400):
+  for _ in range(50 if quick else 400):
     d = c08_gen.gen_legal(rng, d1=(rng.random() < 0.3))
     var = d.variant_orders(rng, identity=True)
     todo.append((d.source([var]), d.cls_name(0, 0), 'c08gen'))
   # (c) shapes
-  for _ in range(400 if quick else 2500):
+  for _ in range(250 if quick else 2500):
     todo.append(gen_shape(rng) + ('shape',))
   lines, metas, rejected = [], [], {}
   for (src, cls, fam) in todo:
     r = prepare(ck, src, cls, fam)
     if r[0] == 'rejected':
       rejected.setdefault(fam, []).append(r[1]); ck.hist('gendag_rejected', fam)
-      if fam != 'shape': raise InfraError(f'c02_gendag: a {fam} design does not elaborate: {r[1]}\n{src}')
+      # a design of another generator that does not elaborate is that generator's property (C08/C09), not a verdict on
+      # the value constraints: skip it; only a family that is rejected wholesale means the generator itself is broken
       continue
     ex, line = r
     lines.append(line); metas.append((ex, {'gendag': True, 'family': fam, 'top': cls, 'source': src}, fam))
+  for fam in {f for (_, _, f) in todo}:
+    tot = sum(1 for (_, _, f) in todo if f == fam)
+    if tot >= 5 and len(rejected.get(fam, [])) * 2 > tot and fam != 'shape':
+      raise InfraError(f'c02_gendag: {len(rejected[fam])} of {tot} {fam} designs do not elaborate, e.g. {rejected[fam][0]}')
   if len(rejected.get('shape', [])) > 0.5 * sum(1 for t in todo if t[2] == 'shape'):
     raise InfraError(f'c02_gendag: most shape designs are rejected at elaboration: {rejected["shape"][:3]}')
   reps = ck.drv('gendag').batch(lines)
